@@ -180,7 +180,12 @@ def plan_for(pid, tier, seed):
                 extra += tj("collx_driver", "zst", tier, prof, seed, 1, ["CollTrace"], max_events=25000, monitors_arena=ARENA_VIEW)
                 if pid == "C13":
                     extra += tj("collx_driver", "copyops", tier, prof, seed, 1, ["CollTrace"], max_events=25000, monitors_arena=ARENA_VIEW)
-        return dict(level="model_checking", mc=[COLL_MC], traces=coll_corpus(tier, seed, COLL_GENS[pid]) + extra, special=[],
+        mcs = [COLL_MC]
+        if pid == "C15":
+            # ownership through the multi-step algorithms (no panic needed for these laws to bite)
+            mcs += [dict(module="PanicSafe", cfg="PanicSafe_" + c, workers=2, timeout=600, mem="2g") for c in ("sp", "dd", "df")]
+            mcs += [dict(module="PanicSafe", cfg="PanicSafe_" + c, workers=2, timeout=600, mem="2g", expect_violation=True) for c in ("sp_bad", "dd_bad")]
+        return dict(level="model_checking", mc=mcs, traces=coll_corpus(tier, seed, COLL_GENS[pid]) + extra, special=[],
                     assumptions=["TLC and the Json/IOUtils community modules",
                                  "the reference semantics Coll.tla (cross-validated: the same formulas accept std's own Vec/Box on the same programs)",
                                  "Tracked elements' drop ledger (harness)"])
